@@ -651,19 +651,28 @@ func (b *BaseStore) joinWithLimit(oplog ipfslog.Log, l ipfslog.Log, amount int) 
 }
 
 // joinVerified merges l, a log read back from storage, into oplog. An entry
-// that could not be verified during replication stays reachable from the
-// valid entries that name it, so it is read back along with them: ipfslog's
-// Join then refuses the whole log, which would keep every valid entry of that
-// history out as well. In that case the entries are merged one by one, as
+// refused during replication (written for another log, or one that cannot be
+// verified) stays reachable from the valid entries that name it, so it is
+// read back along with them: ipfslog's Join would merge the former and refuse
+// the whole log because of the latter, keeping every valid entry of that
+// history out as well. In both cases the entries are merged one by one, as
 // replication does, and the refused ones are left out.
 func (b *BaseStore) joinVerified(oplog ipfslog.Log, l ipfslog.Log) error {
-	_, err := oplog.Join(l, -1)
-	if err == nil {
-		return nil
+	var err error
+	if entriesBelongToLog(l, oplog.GetID()) {
+		if _, err = oplog.Join(l, -1); err == nil {
+			return nil
+		}
+	} else {
+		err = fmt.Errorf("log holds entries written for another log")
 	}
 
 	joined := false
 	for _, e := range l.Values().Slice() {
+		if e.GetLogID() != oplog.GetID() {
+			continue
+		}
+
 		single, lerr := ipfslog.NewLog(b.IPFS(), b.Identity(), &ipfslog.LogOptions{
 			ID:               oplog.GetID(),
 			AccessController: b.AccessController(),
